@@ -263,7 +263,8 @@ class WNode(object):
             lit, c, ov = self.args[0].model()
             v = self.value()
             if self.op == "neg" and lit:
-                return True, c and -(1 << 31) <= v < (1 << 31), ov
+                # the negated literal is typed by its own value: -2147483648 is a C integer although 2147483648 is not
+                return True, -(1 << 31) <= v < (1 << 31), ov
             return False, c, ov or (c and not (CINT[0] <= v <= CINT[1]))
         (l1, c1, o1), (l2, c2, o2) = self.args[0].model(), self.args[1].model()
         v = self.value()
@@ -344,11 +345,14 @@ ATOM_EQ = {"0": "n0", "0.0": "n0", "-0.0": "n0", "False": "n0", "1": "n1", "1.0"
            "B": "nB", "Bf": "nB", "W": "nW"}
 
 
-def render_const(c):
+def render_const(c, tag=None):
+    """source text of a constant of ConstPool.tla; the tag atom "T" is written as the int `tag`"""
     k = c["k"]
     if k == "atom":
+        if c["a"] == "T":
+            return str(int(tag))
         return ATOM_TEXT.get(c["a"], c["a"])
-    items = [render_const(x) for x in c["items"]]
+    items = [render_const(x, tag) for x in c["items"]]
     if k == "tuple":
         if not items:
             t = "()"
@@ -364,12 +368,14 @@ def render_const(c):
     raise ValueError(c)
 
 
-def const_obs(o):
+def const_obs(o, tag=None):
     """observation that corresponds to an Obs tree of ConstPool.tla"""
     k = o["k"]
     if k == "atom":
+        if o["a"] == "T":
+            return ["int", str(int(tag))]
         return jnorm(obs(eval(ATOM_TEXT.get(o["a"], o["a"]), {})))     # an atom name is its own literal text
-    items = [const_obs(x) for x in o["items"]]
+    items = [const_obs(x, tag) for x in o["items"]]
     if k == "tuple":
         return ["tuple"] + items
     if k == "fset":
